@@ -196,15 +196,15 @@ func readSource(db, rp string) *types.Any {
 // genEnvelope: a well-formed request of a random type whose content may refer to things that
 // do not exist (databases, shards, nodes, time ranges without shards, unparsable statements).
 func genEnvelope(r *fw.Rand) (int, []byte, string) {
-	db := []string{"db0", "nodb", ""}[r.Intn(3)]
-	rp := []string{"rp0", "autogen", ""}[r.Intn(3)]
-	shardIDs := [][]uint64{nil, {1}, {999}, {1, 2, 999}, {0}}[r.Intn(5)]
+	db := []string{"db0", "db0", "db0", "nodb", ""}[r.Intn(5)]
+	rp := []string{"rp0", "rp0", "", "autogen"}[r.Intn(4)]
+	shardIDs := [][]uint64{nil, nil, {1}, {1}, {999}, {1, 2, 999}, {0}}[r.Intn(7)]
 	meas := influxql.Measurement{Database: db, RetentionPolicy: rp, Name: []string{"cpu", "m", ""}[r.Intn(3)]}
 	var cond influxql.Expr
 	if r.Bool() {
 		cond, _ = influxql.ParseExpr([]string{"host = 'a'", "_name = 'cpu'", "time > 0", "v > 1.5"}[r.Intn(4)])
 	}
-	rng := datatypes.TimestampRange{Start: []int64{0, -1 << 62, 1 << 61}[r.Intn(3)], End: []int64{1, 1 << 62, 1<<63 - 1}[r.Intn(3)]}
+	rng := datatypes.TimestampRange{Start: []int64{0, -1 << 62, 1 << 61, 1600000000000000000}[r.Intn(4)], End: []int64{1, 1 << 62, 1<<63 - 1, 1600000000000001000}[r.Intn(4)]}
 	opt := query.IteratorOptions{
 		Expr:       &influxql.VarRef{Val: "v", Type: influxql.Float},
 		Dimensions: []string{"host"},
